@@ -316,6 +316,55 @@ class _FlipCompare(_ast.NodeTransformer):
         return node
 
 
+class _SwapIndependent(_ast.NodeTransformer):
+    """Swap adjacent simple assignments that cannot influence each other: both are `name|self.attr = <expr>`, neither
+    expression contains a call/yield/await, and neither reads or writes what the other writes."""
+
+    @staticmethod
+    def _simple(st):
+        if not (isinstance(st, _ast.Assign) and len(st.targets) == 1):
+            return None
+        t = st.targets[0]
+        if isinstance(t, _ast.Name):
+            tgt = t.id
+        elif isinstance(t, _ast.Attribute) and isinstance(t.value, _ast.Name) and t.value.id == "self":
+            tgt = "self." + t.attr
+        else:
+            return None
+        for x in _ast.walk(st.value):
+            if isinstance(x, (_ast.Call, _ast.Yield, _ast.YieldFrom, _ast.Await, _ast.NamedExpr, _ast.Lambda, _ast.Subscript,
+                              _ast.ListComp, _ast.DictComp, _ast.SetComp, _ast.GeneratorExp)):
+                return None
+        reads = set()
+        for x in _ast.walk(st.value):
+            if isinstance(x, _ast.Name):
+                reads.add(x.id)
+            if isinstance(x, _ast.Attribute) and isinstance(x.value, _ast.Name) and x.value.id == "self":
+                reads.add("self." + x.attr)
+        return tgt, reads
+
+    def _swap(self, body):
+        out = list(body)
+        i = 0
+        while i + 1 < len(out):
+            a, b = self._simple(out[i]), self._simple(out[i + 1])
+            if a and b and a[0] != b[0] and a[0] not in b[1] and b[0] not in a[1] \
+                    and not (a[0].split(".")[0] in b[1] or b[0].split(".")[0] in a[1]):
+                out[i], out[i + 1] = out[i + 1], out[i]
+                i += 2
+            else:
+                i += 1
+        return out
+
+    def generic_visit(self, node):
+        super().generic_visit(node)
+        for field in ("body", "orelse", "finalbody"):
+            seq = getattr(node, field, None)
+            if isinstance(seq, list) and seq and isinstance(seq[0], _ast.stmt):
+                setattr(node, field, self._swap(seq))
+        return node
+
+
 def _transform_tree(root, how):
     overlay = {}
     for dirpath, dirs, files in os.walk(os.path.join(root, "lena")):
@@ -345,6 +394,8 @@ def _transform_tree(root, how):
                 tree = _ExtractReturn().visit(tree)
             elif how == "flip-compare":
                 tree = _FlipCompare().visit(tree)
+            elif how == "swap-independent":
+                tree = _SwapIndependent().visit(tree)
             _ast.fix_missing_locations(tree)
             overlay[rel] = _ast.unparse(tree) + "\n"
     return overlay
@@ -353,7 +404,8 @@ def _transform_tree(root, how):
 GENERIC_TWINS = (("generic/reformat-all", "reformat"), ("generic/rename-locals-all", "rename"), ("generic/noop-stmt-all", "noop"))
 # deeper behaviour-preserving rewrites: a rule may answer UNKNOWN on them (an idiom it does not know), never VIOLATION
 DEEP_TWINS = (("generic/negate-if-all", "negate-if"), ("generic/augassign-expanded", "augassign"),
-              ("generic/extract-return-all", "extract-return"), ("generic/flip-compare-all", "flip-compare"))
+              ("generic/extract-return-all", "extract-return"), ("generic/flip-compare-all", "flip-compare"),
+              ("generic/swap-independent-all", "swap-independent"))
 
 
 def generic_twin_tasks(prop, root, base_keys, base_unknown):
